@@ -675,11 +675,14 @@ func (u *URI) AppendBytes(dst []byte) []byte {
 func (u *URI) RequestURI() []byte {
 	var dst []byte
 	if u.DisablePathNormalizing {
-		dst = append(u.requestURI[:0], u.PathOriginal()...)
-		if len(dst) == 0 {
-			// an empty path is sent as "/" (RFC 7230 section 5.3.1), e.g. for http://host?query
+		dst = u.requestURI[:0]
+		if po := u.pathOriginal; len(po) == 0 || po[0] != '/' && !(len(po) == 1 && po[0] == '*') {
+			// an empty path is sent as "/" (RFC 7230 section 5.3.1), e.g. for http://host?query;
+			// a path without the leading '/' (SetPath("a/b"), reported by Path() as "/a/b") would
+			// otherwise continue the host in the full URI and is no valid request target either
 			dst = append(dst, '/')
 		}
+		dst = append(dst, u.pathOriginal...)
 	} else {
 		dst = bytesconv.AppendQuotedPath(u.requestURI[:0], u.Path())
 	}
